@@ -116,6 +116,45 @@ theorem C12_real_encoding_first (cfg : Cfg) (settings : Settings) (chunks : List
 
 /-! ## Capture flags -/
 
+theorem startTag_eq_core (s : St) (hf : s.fault = none) (name : LocalName) (ns : Model.Ns) :
+    startTag s name ns = startTagCore { s with ord := s.ord + 1 } name ns := by
+  unfold startTag; simp [hf]
+
+theorem startTag_fault (s : St) (m : String) (hf : s.fault = some m) (name : LocalName) (ns : Model.Ns) :
+    startTag s name ns = (s, .err (.panic m)) := by
+  unfold startTag; simp [hf]
+
+theorem afterVm_flags (s : St) (n : Nat) (vm' : SelVM.Vm) (infos : List SelVM.MatchInfo) (f : Model.Flags)
+    (h : (s.afterVm n vm' infos).2 = .ok f) : f = (s.afterVm n vm' infos).1.flags := by
+  unfold St.afterVm at h ⊢
+  split
+  · rename_i hh; simp [hh] at h
+  · rename_i hh
+    simp only [hh, Except.ok.injEq] at h
+    exact h.symm
+
+theorem startTagCore_flags (s : St) (n : LocalName) (ns : Model.Ns) (f : Model.Flags)
+    (h : (startTagCore s n ns).2 = .flags f) : f = (startTagCore s n ns).1.flags := by
+  unfold startTagCore at h ⊢
+  split
+  · rename_i hv
+    simp only [hv, StartTagRes.flags.injEq] at h
+    exact h.symm
+  · rename_i vm hv
+    simp only [hv] at h
+    split
+    · rename_i he; simp [he] at h
+    · rename_i vm' infos he
+      simp only [he] at h
+      dsimp only at h ⊢
+      split
+      · rename_i f' hr
+        simp only [hr, StartTagRes.flags.injEq] at h
+        rw [← h]
+        exact afterVm_flags _ _ _ _ _ hr
+      · rename_i hr; simp [hr] at h
+    · rename_i he; simp [he] at h
+
 /-- **Full_flags_returned.** Whatever `handle_start_tag`, the aux-info continuation and
 `handle_end_tag` return as capture flags are the flags of the state they leave behind:
 `get_token_capture_flags()` of the handler dispatcher (`Handlers.Dispatcher.getTokenCaptureFlags`, the
@@ -134,29 +173,11 @@ theorem Full_flags_returned (s : St) :
       exact h.symm
   refine ⟨?_, ?_, ?_⟩
   · intro n ns f h
-    unfold startTag at h ⊢
-    split
-    · rename_i hf; simp [hf] at h
-    · rename_i hf
-      simp only [hf] at h
-      split
-      · rename_i hv
-        simp only [hv, StartTagRes.flags.injEq] at h
-        exact h.symm
-      · rename_i vm hv
-        simp only [hv] at h
-        split
-        · rename_i he; simp [he] at h
-        · rename_i vm' infos he
-          simp only [he] at h
-          dsimp only at h ⊢
-          split
-          · rename_i f' hr
-            simp only [hr, StartTagRes.flags.injEq] at h
-            rw [← h]
-            exact hafter _ _ _ _ _ hr
-          · rename_i hr; simp [hr] at h
-        · rename_i he; simp [he] at h
+    cases hf : s.fault with
+    | some m => rw [startTag_fault s m hf] at h; simp at h
+    | none =>
+      rw [startTag_eq_core s hf] at h ⊢
+      exact startTagCore_flags _ n ns f h
   · intro i f h
     unfold auxInfo at h ⊢
     cases hv : s.vm with
@@ -303,6 +324,63 @@ theorem Full_initial_scan (cfg : Cfg) :
 
 /-! ## The selector VM inside the controller -/
 
+theorem vm_direct_core (s : St) (vm : SelVM.Vm) (hv : s.vm = some vm) (name : LocalName) (ns : Model.Ns)
+    (f : Model.Flags) (h : (startTagCore s name ns).2 = .flags f) (attrs : List Sel.Attr) (sc : Bool) :
+    ∃ vm' infos d', vm.handleStartTag ⟨nameBytes name, nsConv ns, attrs, sc⟩ = .ok (vm', infos) ∧
+      startMatchingInfos s.disp infos = .ok d' ∧
+      (startTagCore s name ns).1.vm = some vm' ∧ (startTagCore s name ns).1.disp = d' := by
+  unfold startTagCore at h ⊢
+  simp only [hv] at h ⊢
+  cases he : vm.execForStartTag (nameBytes name) (nsConv ns) with
+  | error p => simp [he] at h
+  | ok o =>
+    cases o with
+    | infoRequest vm1 req => simp [he] at h
+    | done vm' infos =>
+      simp only [he] at h ⊢
+      unfold St.afterVm at h ⊢
+      cases hm : startMatchingInfos s.disp infos with
+      | error p => simp [hm] at h
+      | ok d =>
+        refine ⟨vm', infos, d, ?_, hm, ?_, ?_⟩
+        · simp [SelVM.Vm.handleStartTag, he, bind, Except.bind, pure, Except.pure]
+        · simp
+        · simp
+
+theorem vm_aux_core (s : St) (vm : SelVM.Vm) (hv : s.vm = some vm) (name : LocalName) (ns : Model.Ns)
+    (h : (startTagCore s name ns).2 = .infoRequest) (info : AuxInfo) (aux : SelVM.AuxStartTagInfo)
+    (ha : auxConv info = some aux) (f : Model.Flags) (hok : (auxInfo (startTagCore s name ns).1 info).2 = .ok f) :
+    ∃ vm' infos d', vm.handleStartTag ⟨nameBytes name, nsConv ns, aux.attrs, aux.selfClosing⟩ = .ok (vm', infos) ∧
+      startMatchingInfos s.disp infos = .ok d' ∧
+      (auxInfo (startTagCore s name ns).1 info).1.vm = some vm' ∧ (auxInfo (startTagCore s name ns).1 info).1.disp = d' := by
+  unfold startTagCore at h hok ⊢
+  simp only [hv] at h hok ⊢
+  cases he : vm.execForStartTag (nameBytes name) (nsConv ns) with
+  | error p => simp [he] at h
+  | ok o =>
+    cases o with
+    | done vm' infos =>
+      simp only [he] at h
+      split at h <;> simp at h
+    | infoRequest vm1 req =>
+      simp only [he] at hok ⊢
+      unfold auxInfo at hok ⊢
+      simp only [ha] at hok ⊢
+      cases hr : req.resume vm1 aux with
+      | error p => simp [hr] at hok
+      | ok r =>
+        obtain ⟨vm', infos⟩ := r
+        simp only [hr] at hok ⊢
+        unfold St.afterVm at hok ⊢
+        cases hm : startMatchingInfos s.disp infos with
+        | error p => simp [hm] at hok
+        | ok d =>
+          refine ⟨vm', infos, d, ?_, hm, ?_, ?_⟩
+          · simp only [SelVM.Vm.handleStartTag, he, bind, Except.bind]
+            exact hr
+          · simp
+          · simp
+
 /-- **Full_vm_direct.** When `handle_start_tag` answers with flags at once, the VM has done exactly what
 `SelVM.Vm.handleStartTag` (package selvm; C04) does for this tag — whatever its attributes are — and
 every reported match has been passed to `start_matching`. -/
@@ -311,26 +389,11 @@ theorem Full_vm_direct (s : St) (vm : SelVM.Vm) (hv : s.vm = some vm) (name : Lo
     ∃ vm' infos d', vm.handleStartTag ⟨nameBytes name, nsConv ns, attrs, sc⟩ = .ok (vm', infos) ∧
       startMatchingInfos s.disp infos = .ok d' ∧
       (startTag s name ns).1.vm = some vm' ∧ (startTag s name ns).1.disp = d' := by
-  unfold startTag at h ⊢
-  split
-  · rename_i hf; simp [hf] at h
-  · rename_i hf
-    simp only [hf, hv] at h ⊢
-    cases he : vm.execForStartTag (nameBytes name) (nsConv ns) with
-    | error p => simp [he] at h
-    | ok o =>
-      cases o with
-      | infoRequest vm1 req => simp [he] at h
-      | done vm' infos =>
-        simp only [he] at h ⊢
-        unfold St.afterVm at h ⊢
-        cases hm : startMatchingInfos s.disp infos with
-        | error p => simp [hm] at h
-        | ok d =>
-          refine ⟨vm', infos, d, ?_, hm, ?_, ?_⟩
-          · simp [SelVM.Vm.handleStartTag, he, bind, Except.bind, pure, Except.pure]
-          · simp
-          · simp
+  cases hf : s.fault with
+  | some m => rw [startTag_fault s m hf] at h; simp at h
+  | none =>
+    rw [startTag_eq_core s hf] at h ⊢
+    exact vm_direct_core { s with ord := s.ord + 1 } vm hv name ns f h attrs sc
 
 /-- **Full_vm_aux.** When `handle_start_tag` asks for the attributes (`InfoRequest`) and the request is
 answered with `info`, the two steps together are `SelVM.Vm.handleStartTag` on the tag WITH the
@@ -342,36 +405,11 @@ theorem Full_vm_aux (s : St) (vm : SelVM.Vm) (hv : s.vm = some vm) (name : Local
     ∃ vm' infos d', vm.handleStartTag ⟨nameBytes name, nsConv ns, aux.attrs, aux.selfClosing⟩ = .ok (vm', infos) ∧
       startMatchingInfos s.disp infos = .ok d' ∧
       (auxInfo (startTag s name ns).1 info).1.vm = some vm' ∧ (auxInfo (startTag s name ns).1 info).1.disp = d' := by
-  unfold startTag at h hok ⊢
-  split at h
-  · simp at h
-  · rename_i hf
-    simp only [hf, hv] at h hok ⊢
-    cases he : vm.execForStartTag (nameBytes name) (nsConv ns) with
-    | error p => simp [he] at h
-    | ok o =>
-      cases o with
-      | done vm' infos =>
-        simp only [he] at h
-        split at h <;> simp at h
-      | infoRequest vm1 req =>
-        simp only [he] at hok ⊢
-        unfold auxInfo at hok ⊢
-        simp only [ha] at hok ⊢
-        cases hr : req.resume vm1 aux with
-        | error p => simp [hr] at hok
-        | ok r =>
-          obtain ⟨vm', infos⟩ := r
-          simp only [hr] at hok ⊢
-          unfold St.afterVm at hok ⊢
-          cases hm : startMatchingInfos s.disp infos with
-          | error p => simp [hm] at hok
-          | ok d =>
-            refine ⟨vm', infos, d, ?_, hm, ?_, ?_⟩
-            · simp only [SelVM.Vm.handleStartTag, he, bind, Except.bind]
-              exact hr
-            · simp
-            · simp
+  cases hf : s.fault with
+  | some m => rw [startTag_fault s m hf] at h; simp at h
+  | none =>
+    rw [startTag_eq_core s hf] at h hok ⊢
+    exact vm_aux_core { s with ord := s.ord + 1 } vm hv name ns h info aux ha f hok
 
 /-! ## The dispatcher hands over the attributes of the tag it is handling -/
 
@@ -540,7 +578,7 @@ theorem Full_descs_in_sync (cfg : Cfg) (s : FullSt cfg) :
 
 /-- consequence: `handle_end_tag` never takes the glue's "descs out of sync" branch -/
 theorem Full_endTag_in_sync (cfg : Cfg) (s : FullSt cfg) (name : LocalName) (hf : s.1.fault = none) :
-    (endTag s.1 name).1.fault ≠ some (.panic "descs out of sync with the VM stack") := by
+    (endTag s.1 name).1.fault ≠ some syncMsg := by
   have hs := s.2.sync
   unfold endTag
   split
@@ -548,7 +586,7 @@ theorem Full_endTag_in_sync (cfg : Cfg) (s : FullSt cfg) (name : LocalName) (hf 
   · rename_i vm hv
     have hl : s.1.descs.length = vm.stack.items.length := by simpa [Sync, hv] using hs
     split
-    · simp [vmErr]
+    · simp [vmMsg, syncMsg]
     · rename_i vm' popped he
       have hlen : vm'.stack.items.length + popped.length = vm.stack.items.length := by
         unfold SelVM.Vm.execForEndTag at he
@@ -562,7 +600,7 @@ theorem Full_endTag_in_sync (cfg : Cfg) (s : FullSt cfg) (name : LocalName) (hf 
       have : popped.length ≤ s.1.descs.length := by omega
       simp only [this, if_true]
       split
-      · simp [dispErr]
+      · simp [dispMsg, syncMsg]
       · rw [hf]; simp
 
 /-- **Full_not_ctlClean** (a finding about C15's hypothesis, not about the Rust). `CtlClean`, the
